@@ -11,6 +11,7 @@ namespace Bct.C07
 open Bct Bct.Modularity Finset
 
 variable {n : ℕ}
+variable {g0 : GState}
 
 /-- **move_gain_obj** — for a symmetric objective matrix `B` and `c u ≠ mb`, moving `u` into `mb` changes
 `Qobj` by exactly twice the gain `Hnm[u,mb] − Hnm[u,ma] + B[u,u]` that all optimisers compute. -/
@@ -49,7 +50,7 @@ theorem passes_monotone {σ : Type} {K : Kern σ n} {B : RMat n} {κ : ℚ} {Inv
 total weight, every start partition, every sequence of visiting orders). `feedback_monotone` is the
 instance `c0 :=` the routine's own output. -/
 theorem finetune_und_monotone (W : RMat n) (γ : ℚ) (c0 : Fin n → ℤ) (ds : List ℕ) (out : Out n)
-    (hW : Symm W) (hs : 0 < total W) (h : finetuneUnd W γ c0 ds = .ok out) :
+    (hW : Symm W) (hs : 0 < total W) (h : finetuneUnd W γ c0 ds g0 = .ok out) :
     ∀ p ∈ out.levels, Qund W γ c0 ≤ Qund W γ (labOf p.1) ∧ p.2 = Qund W γ (labOf p.1) := by
   obtain ⟨c', q, _, h1, _, h3, h4⟩ := finetuneUnd_spec W γ c0 ds out hW hs h
   intro p hp
@@ -62,7 +63,7 @@ theorem finetune_und_monotone (W : RMat n) (γ : ℚ) (c0 : Fin n → ℤ) (ds :
 gain at least `1e-10`, every kept level's `q` is the true modularity of its partition and is at least the
 modularity of the all-singletons partition the routine starts from. -/
 theorem louvain_und_monotone (W : RMat n) (γ : ℚ) (ds : List ℕ) (out : Out n)
-    (hW : Symm W) (hs : 0 < total W) (h : louvainUnd W γ ds = .ok out) :
+    (hW : Symm W) (hs : 0 < total W) (h : louvainUnd W γ ds g0 = .ok out) :
     (∀ p ∈ out.levels, p = (idLab n, -1) ∨
         (p.2 = Qund W γ (labOf p.1) ∧ Qund W γ (id : Fin n → Fin n) ≤ Qund W γ (labOf p.1))) ∧
     List.IsChain (fun a b : Lab n × ℚ => a.2 < b.2) out.levels := by
@@ -78,7 +79,7 @@ theorem louvain_und_monotone (W : RMat n) (γ : ℚ) (ds : List ℕ) (out : Out 
 /-- **community_louvain never returns a partition worse than its start** — every objective (built-in or
 custom), every (also directed) `W`; the objective is `Σ_{ci=cj}` of the objective matrix of that type. -/
 theorem community_louvain_monotone (W : RMat n) (γ : ℚ) (obj : Objective n) (c0 : Fin n → ℤ) (ds : List ℕ) (out : Out n)
-    (h : communityLouvain W γ obj c0 ds = .ok out) :
+    (h : communityLouvain W γ obj c0 ds g0 = .ok out) :
     ∀ p ∈ out.levels, Qobj (objMatrixRaw W γ obj) c0 ≤ Qobj (objMatrixRaw W γ obj) (labOf p.1) := by
   intro p hp
   have := (communityLouvain_spec W γ obj c0 ds out (objMatrix_symm' W γ obj) h p hp).2
@@ -87,7 +88,7 @@ theorem community_louvain_monotone (W : RMat n) (γ : ℚ) (obj : Objective n) (
 
 /-- for `B='modularity'` on any (also directed) network of positive weight: in terms of `Qdir` -/
 theorem community_louvain_modularity_monotone (W : RMat n) (γ : ℚ) (c0 : Fin n → ℤ) (ds : List ℕ) (out : Out n)
-    (hs : 0 < total W) (h : communityLouvain W γ .modularity c0 ds = .ok out) :
+    (hs : 0 < total W) (h : communityLouvain W γ .modularity c0 ds g0 = .ok out) :
     ∀ p ∈ out.levels, Qdir W γ c0 ≤ Qdir W γ (labOf p.1) ∧ p.2 = Qdir W γ (labOf p.1) := by
   intro p hp
   obtain ⟨h1, h2⟩ := communityLouvain_spec W γ .modularity c0 ds out (objMatrix_symm' W γ _) h p hp
@@ -105,13 +106,13 @@ theorem bookkeeping_inv_sign (W0 W1 : RMat n) (s0 s1 d0 d1 γ : ℚ) (h0 : Symm 
 
 /-- **modularity_finetune_und_sign never returns a partition worse than its start** (every `qtype`). -/
 theorem finetune_sign_monotone (t : QType) (W : RMat n) (γ : ℚ) (c0 : Fin n → ℤ) (ds : List ℕ) (out : Out n)
-    (hW : Symm W) (h : finetuneSign t W γ c0 ds = .ok out) :
+    (hW : Symm W) (h : finetuneSign t W γ c0 ds g0 = .ok out) :
     ∀ p ∈ out.levels, Qsign t W γ c0 ≤ Qsign t W γ (labOf p.1) ∧ p.2 = Qsign t W γ (labOf p.1) :=
   fun p hp => ⟨(finetuneSign_spec t W γ c0 ds out hW h p hp).2, (finetuneSign_spec t W γ c0 ds out hW h p hp).1⟩
 
 /-- **modularity_louvain_und_sign never returns a partition worse than the singletons start.** -/
 theorem louvain_sign_monotone (t : QType) (W : RMat n) (γ : ℚ) (ds : List ℕ) (out : Out n)
-    (hW : Symm W) (h : louvainSign t W γ ds = .ok out) :
+    (hW : Symm W) (h : louvainSign t W γ ds g0 = .ok out) :
     ∀ p ∈ out.levels, p = (idLab n, 0) ∨
       (p.2 = Qsign t W γ (labOf p.1) ∧ Qsign t W γ (id : Fin n → Fin n) ≤ Qsign t W γ (labOf p.1)) :=
   louvainSign_spec t W γ ds out hW h
@@ -121,9 +122,9 @@ theorem louvain_sign_monotone (t : QType) (W : RMat n) (γ : ℚ) (ds : List ℕ
 directed) `W` with positive weights present. -/
 theorem community_louvain_named_monotone (W : RMat n) (γ : ℚ) (c0 : Fin n → ℤ) (ds : List ℕ) (out : Out n)
     (hs : 0 < total W) (hs0 : total (posPart W) ≠ 0) :
-    (communityLouvain W γ .potts c0 ds = .ok out → ∀ p ∈ out.levels, Qpotts W γ c0 ≤ Qpotts W γ (labOf p.1)) ∧
-    (communityLouvain W γ .negSym c0 ds = .ok out → ∀ p ∈ out.levels, Qsign .gja W γ c0 ≤ Qsign .gja W γ (labOf p.1)) ∧
-    (communityLouvain W γ .negAsym c0 ds = .ok out → ∀ p ∈ out.levels, Qsign .sta W γ c0 ≤ Qsign .sta W γ (labOf p.1)) := by
+    (communityLouvain W γ .potts c0 ds g0 = .ok out → ∀ p ∈ out.levels, Qpotts W γ c0 ≤ Qpotts W γ (labOf p.1)) ∧
+    (communityLouvain W γ .negSym c0 ds g0 = .ok out → ∀ p ∈ out.levels, Qsign .gja W γ c0 ≤ Qsign .gja W γ (labOf p.1)) ∧
+    (communityLouvain W γ .negAsym c0 ds g0 = .ok out → ∀ p ∈ out.levels, Qsign .sta W γ c0 ≤ Qsign .sta W γ (labOf p.1)) := by
   refine ⟨fun h p hp => ?_, fun h p hp => ?_, fun h p hp => ?_⟩
   · have := community_louvain_monotone W γ .potts c0 ds out h p hp
     unfold Qpotts
@@ -143,16 +144,52 @@ theorem bookkeeping_inv_dir (W : RMat n) (γ : ℚ) :
 /-- **modularity_finetune_dir never returns a partition worse than its start** — arbitrary (directed) `W` of
 positive total weight, every start, every sequence of visiting orders. -/
 theorem finetune_dir_monotone (W : RMat n) (γ : ℚ) (c0 : Fin n → ℤ) (ds : List ℕ) (out : Out n)
-    (hs : 0 < total W) (h : finetuneDir W γ c0 ds = .ok out) :
+    (hs : 0 < total W) (h : finetuneDir W γ c0 ds g0 = .ok out) :
     ∀ p ∈ out.levels, Qdir W γ c0 ≤ Qdir W γ (labOf p.1) ∧ p.2 = Qdir W γ (labOf p.1) :=
   fun p hp => ⟨finetuneDir_spec W γ c0 ds out hs h p hp, finetuneDir_q W γ c0 ds out h p hp⟩
+
+/-! ### feeding a routine's own output back never lowers Q
+
+The returned labels `c₁ : Lab n` are handed back as the start (`fun i => c₁[i] + 1`, as the Python caller does). -/
+
+/-- the start partition fed back -/
+def fedBack {n : ℕ} (c : Lab n) : Fin n → ℤ := fun i => ((labOf c i).val : ℤ) + 1
+
+theorem fedBack_congr (c : Lab n) (i j : Fin n) : fedBack c i = fedBack c j ↔ labOf c i = labOf c j := by
+  unfold fedBack
+  constructor
+  · intro e; exact Fin.ext (by exact_mod_cast (add_right_cancel e))
+  · intro e; rw [e]
+
+/-- **feedback_monotone** — `modularity_finetune_und`, `_dir`, `_und_sign` and `community_louvain` started from their
+own output `c₁` (any earlier run, any draws) return a partition at least as good as `c₁`. -/
+theorem feedback_monotone (W : RMat n) (γ : ℚ) (c1 : Lab n) (ds : List ℕ) (out : Out n) :
+    (Symm W → 0 < total W → finetuneUnd W γ (fedBack c1) ds g0 = .ok out →
+      ∀ p ∈ out.levels, Qund W γ (labOf c1) ≤ Qund W γ (labOf p.1)) ∧
+    (0 < total W → finetuneDir W γ (fedBack c1) ds g0 = .ok out →
+      ∀ p ∈ out.levels, Qdir W γ (labOf c1) ≤ Qdir W γ (labOf p.1)) ∧
+    (∀ t : QType, Symm W → finetuneSign t W γ (fedBack c1) ds g0 = .ok out →
+      ∀ p ∈ out.levels, Qsign t W γ (labOf c1) ≤ Qsign t W γ (labOf p.1)) ∧
+    (∀ obj : Objective n, communityLouvain W γ obj (fedBack c1) ds g0 = .ok out →
+      ∀ p ∈ out.levels, Qobj (objMatrixRaw W γ obj) (labOf c1) ≤ Qobj (objMatrixRaw W γ obj) (labOf p.1)) := by
+  have hc : ∀ B : RMat n, Qobj B (fedBack c1) = Qobj B (labOf c1) :=
+    fun B => Qobj_congr B _ _ (fedBack_congr c1)
+  refine ⟨fun hW hs h p hp => ?_, fun hs h p hp => ?_, fun t hW h p hp => ?_, fun obj h p hp => ?_⟩
+  · have := (finetune_und_monotone W γ (fedBack c1) ds out hW hs h p hp).1
+    unfold Qund at this ⊢; rwa [hc] at this
+  · have := (finetune_dir_monotone W γ (fedBack c1) ds out hs h p hp).1
+    unfold Qdir at this ⊢; rwa [hc] at this
+  · have := (finetune_sign_monotone t W γ (fedBack c1) ds out hW h p hp).1
+    rw [Qsign_eq, Qsign_eq] at this ⊢; rwa [hc] at this
+  · have := community_louvain_monotone W γ obj (fedBack c1) ds out h p hp
+    rwa [hc] at this
 
 /-! ### `modularity_louvain_dir`: the property is FALSE for the code as it is (open known finding D6)
 
 `modularity_louvain_dir` keeps `knm_i = W.copy()` and never assigns `W = W1`; the model mirrors these
 statements (the correspondence run reproduces bct's output on directed input), so no monotonicity theorem
 exists for `louvainDir`.  **Partial**: full statement that fails —
-  `∀ W γ ds out, 0 < total W → louvainDir W γ ds = .ok out →
+  `∀ W γ ds out, 0 < total W → louvainDir W γ ds g0 = .ok out →
      (∀ p ∈ out.levels.drop 1, p.2 = Qdir W γ (labOf p.1) ∧ Qdir W γ id ≤ Qdir W γ (labOf p.1)) ∧ levels increasing`.
 Its negation is proved on concrete witnesses (inputs and draws recorded from real bct runs). -/
 
